@@ -32,6 +32,7 @@ shuffled; rejection stream with -0.1, 1.5, 1+2^-52, -1e-300, NaN, +-inf at rando
 A case is non-trivial when the call is accepted and returns a finite value from a non-degenerate input.
 """
 import itertools
+import json
 import math
 import re
 import warnings
@@ -306,6 +307,8 @@ def body(ctx):
         obs, sim, eps = case["obs"], case["sim"], case["eps"]
         n, m = sim.shape
         jc = {"obs": obs, "sim": sim.tolist(), "eps": eps, "gen": case["gen"]}
+        if "history" in case:
+            jc["history"] = case["history"]
         # ---- kernel
         if m >= 1:
             ierr, fmat, ranks = call_ensrank(eps, sim)
@@ -343,7 +346,7 @@ def body(ctx):
         else:
             wr = None
         # ---- dscore
-        D = float(metrics.dscore(np.array(obs), sim, eps=eps))
+        D = float(metrics.dscore(case.get("obs_array", np.array(obs)), sim, eps=eps))
         onp = np.argsort(np.argsort(np.array(obs, dtype=float)))
         ost = stable_ranks(obs)
         if not valid_ranking(obs, onp):
@@ -563,29 +566,14 @@ def body(ctx):
                 {"obs": obs, "sim": sim.tolist(), "eps": eps, "gen": "malformed/" + kind})
 
     # ---------------- PIT
-    for it in range(ctx.scale(600, 6000)):
-        n = rng.choice([1, 2, 3, 5, 10, 30])
-        m = rng.choice([1, 2, 3, 5, 8, 12])
-        nlev = rng.choice([3, 6, 40])
-        # every value is off + K*step for an integer level K: small magnitudes, or large-magnitude affine images of the
-        # same levels whose gaps are far above the 1e-10 jitter in absolute terms but below 1e-10 * |value|
-        if rng.random() < 0.65:
-            off, step, mag = 0.0, rng.choice([1.0, 0.5, 0.1]), "small"
-        else:
-            off, step = rng.choice([(1e6, 1e-6), (1e6, 5e-7), (-1e6, 2e-6), (1e9, 0.01), (-3e9, 0.05), (1e4, 2e-8),
-                                    (1e12, 10.0), (2.5e7, 1e-4)])
-            mag = "large"
-        lev = lambda K: off + K * step
-        ens = np.array([[lev(rng.randint(0, nlev)) for _ in range(m)] for _ in range(n)])
-        obs = np.array([lev(rng.randint(-1, nlev + 1)) for _ in range(n)])
-        cst = rng.choice([0.0, 0.3, 0.5, 0.1, 0.25, 0.4999, 0.7, 1.0])
-        censor = rng.choice([0.0, lev(0), lev(0), lev(1), lev(2), off - 1.0, lev(0.5), lev(nlev), off - abs(off) - 1.0])
-        random_ = rng.random() < 0.6
-        seed = rng.randrange(2 ** 31)
+    def pit_case(obs, ens, cst, censor, random_, seed, mag, history=None):
+        n, m = ens.shape
         case = {"obs": obs.tolist(), "ens": ens.tolist(), "cst": cst, "censor": censor, "random": random_, "npseed": seed}
+        if history is not None:
+            case["history"] = history
         np.random.seed(seed)
-        pits, sudo = metrics.pit(obs, ens, random=random_, cst=cst, censor=censor)
-        pits = np.asarray(pits, dtype=float)
+        pits_returned, sudo = metrics.pit(obs, ens, random=random_, cst=cst, censor=censor)
+        pits = np.array(pits_returned, dtype=float)
         np.random.seed(seed)
         dobs = np.random.uniform(-EPS_PIT, EPS_PIT, size=n)
         dens = np.random.uniform(-EPS_PIT, EPS_PIT, size=(n, m))
@@ -646,6 +634,40 @@ def body(ctx):
                   f"pit/{mag}/random={random_}/sudo={'some' if sudo.any() else 'none'}",
                   sample={"obs": obs[:3].tolist(), "ens": ens[:2].tolist(), "cst": cst, "censor": censor,
                           "random": random_, "pits": pits[:3].tolist()})
+        return pits_returned, sudo
+
+
+    # corpus: minimised past failures, replayed first
+    for f in sorted((C.ROOT / "corpus" / PID).glob("*.json")):
+        cj = json.loads(f.read_text())["case"]
+        if cj.get("fn") == "pit":
+            for sd in cj["npseeds"]:
+                pit_case(np.array(cj["obs"], dtype=float), np.array(cj["ens"], dtype=float), cj["cst"], cj["censor"],
+                         bool(cj["random"]), int(sd), "corpus")
+        elif cj.get("fn") == "dscore":
+            dscore_case({"obs": [float(v) for v in cj["obs"]], "sim": np.array(cj["sim"], dtype=float),
+                         "eps": float(cj.get("eps", 1e-6)), "gen": "fixed/corpus"})
+
+    for it in range(ctx.scale(600, 6000)):
+        n = rng.choice([1, 2, 3, 5, 10, 30])
+        m = rng.choice([1, 2, 3, 5, 8, 12])
+        nlev = rng.choice([3, 6, 40])
+        # every value is off + K*step for an integer level K: small magnitudes, or large-magnitude affine images of the
+        # same levels whose gaps are far above the 1e-10 jitter in absolute terms but below 1e-10 * |value|
+        if rng.random() < 0.65:
+            off, step, mag = 0.0, rng.choice([1.0, 0.5, 0.1]), "small"
+        else:
+            off, step = rng.choice([(1e6, 1e-6), (1e6, 5e-7), (-1e6, 2e-6), (1e9, 0.01), (-3e9, 0.05), (1e4, 2e-8),
+                                    (1e12, 10.0), (2.5e7, 1e-4)])
+            mag = "large"
+        lev = lambda K: off + K * step
+        ens = np.array([[lev(rng.randint(0, nlev)) for _ in range(m)] for _ in range(n)])
+        obs = np.array([lev(rng.randint(-1, nlev + 1)) for _ in range(n)])
+        cst = rng.choice([0.0, 0.3, 0.5, 0.1, 0.25, 0.4999, 0.7, 1.0])
+        censor = rng.choice([0.0, lev(0), lev(0), lev(1), lev(2), off - 1.0, lev(0.5), lev(nlev), off - abs(off) - 1.0])
+        random_ = rng.random() < 0.6
+        seed = rng.randrange(2 ** 31)
+        pit_case(obs, ens, cst, censor, random_, seed, mag)
 
     # ---------------- uniformity statistics
     # which guard of ADtest fired, resolved against the current source (histogram only)
@@ -691,36 +713,14 @@ def body(ctx):
         add(f"cvmpg {nn} {C.f2h(st)}", "cvmp", pv, {"nsample": nn, "stat": st, "gen": "table_lookup"})
         ctx.count(("cvmp", nn, st), True, "cvm/pvalue_lookup")
 
-    for it in range(ctx.scale(700, 7000)):
-        n = rng.choice([1, 2, 3, 5, 10, 30, 100, 300]) if rng.random() < 0.7 else rng.randint(1, 300 if not ctx.thorough else 900)
-        kind = rng.choice(["uniform", "uniform", "ties", "edges", "beta", "sorted", "regular", "regular"])
-        if kind == "uniform":
-            x = [rng.uniform(1e-9, 1 - 1e-9) for _ in range(n)]
-        elif kind == "ties":
-            x = [rng.randint(1, 19) / 20.0 for _ in range(n)]
-        elif kind == "edges":
-            x = [rng.choice([1e-12, 1 - 1e-12, 0.5, rng.uniform(0.01, 0.99)]) for _ in range(n)]
-        elif kind == "beta":
-            x = [min(max(rng.betavariate(0.5, 2.0), 1e-9), 1 - 1e-9) for _ in range(n)]
-        elif kind == "regular":
-            # evenly spaced plotting positions (smallest possible statistics), exact or slightly perturbed
-            w = rng.choice([0.0, 0.0, 0.1, 0.5])
-            x = [(2 * i + 1 + w * rng.uniform(-1, 1)) / (2 * n) for i in range(n)]
-            rng.shuffle(x)
-        else:
-            x = sorted(rng.uniform(1e-6, 1 - 1e-6) for _ in range(n))
-        if rng.random() < 0.35:
-            x, okind = reorder(rng, x)
-            kind = kind + "+" + okind
-        bad = None
-        if rng.random() < 0.3:
-            bad = rng.choice([-0.1, 1.5, 1.0 + 2.0 ** -52, -1e-300, float("nan"), float("inf"), float("-inf"), -5e-324, 2.0])
-            x[rng.randrange(n)] = bad
-            if rng.random() < 0.3:
-                x[rng.randrange(n)] = rng.choice([float("nan"), 1.5, -0.1])
-        xa = np.array(x, dtype=float)
+    def unif_case(x, kind, it, bad=None, xa=None, history=None):
+        """AD and CvM on the sample x (xa: the array object handed to the code, when it must be a particular one)"""
+        n = len(x)
+        xa = np.array(x, dtype=float) if xa is None else xa
         valid = bool(np.all((xa >= 0) & (xa <= 1)))   # False for NaN
         case = {"data": [repr(v) for v in x] if n <= 40 else {"n": n, "head": [repr(v) for v in x[:10]]}, "gen": kind, "bad": repr(bad)}
+        if history is not None:
+            case["history"] = history
         # AD
         try:
             adstat, adp = metrics.anderson_darling_test(xa)
@@ -736,7 +736,7 @@ def body(ctx):
         if impl == "err" and valid:
             ctx.finding("ad/rejects_valid", "Anderson-Darling test rejects data inside [0, 1]", {**case})
         if not valid:
-            continue
+            return
         # textbook AD: -n - (1/n) sum (2i-1) [ln x_(i) + ln(1 - x_(n+1-i))]
         xs = sorted(x)
         adef = -n - sum((2 * i + 1) * (math.log(xs[i]) + math.log1p(-xs[n - 1 - i])) for i in range(n)) / n
@@ -777,6 +777,36 @@ def body(ctx):
             if how != "shuffle" and it % 3 == 0:
                 add(f"ad {C.flist(xsh)}", "ad", ("ok", float(ad2), float(adp2)), ocase)
 
+
+    for it in range(ctx.scale(700, 7000)):
+        n = rng.choice([1, 2, 3, 5, 10, 30, 100, 300]) if rng.random() < 0.7 else rng.randint(1, 300 if not ctx.thorough else 900)
+        kind = rng.choice(["uniform", "uniform", "ties", "edges", "beta", "sorted", "regular", "regular"])
+        if kind == "uniform":
+            x = [rng.uniform(1e-9, 1 - 1e-9) for _ in range(n)]
+        elif kind == "ties":
+            x = [rng.randint(1, 19) / 20.0 for _ in range(n)]
+        elif kind == "edges":
+            x = [rng.choice([1e-12, 1 - 1e-12, 0.5, rng.uniform(0.01, 0.99)]) for _ in range(n)]
+        elif kind == "beta":
+            x = [min(max(rng.betavariate(0.5, 2.0), 1e-9), 1 - 1e-9) for _ in range(n)]
+        elif kind == "regular":
+            # evenly spaced plotting positions (smallest possible statistics), exact or slightly perturbed
+            w = rng.choice([0.0, 0.0, 0.1, 0.5])
+            x = [(2 * i + 1 + w * rng.uniform(-1, 1)) / (2 * n) for i in range(n)]
+            rng.shuffle(x)
+        else:
+            x = sorted(rng.uniform(1e-6, 1 - 1e-6) for _ in range(n))
+        if rng.random() < 0.35:
+            x, okind = reorder(rng, x)
+            kind = kind + "+" + okind
+        bad = None
+        if rng.random() < 0.3:
+            bad = rng.choice([-0.1, 1.5, 1.0 + 2.0 ** -52, -1e-300, float("nan"), float("inf"), float("-inf"), -5e-324, 2.0])
+            x[rng.randrange(n)] = bad
+            if rng.random() < 0.3:
+                x[rng.randrange(n)] = rng.choice([float("nan"), 1.5, -0.1])
+        unif_case(x, kind, it, bad)
+
     # ---------------- alpha: statistic from the model's PIT, p-values in range
     for it in range(ctx.scale(200, 2000)):
         n = rng.choice([2, 5, 10, 40])
@@ -802,7 +832,157 @@ def body(ctx):
             add(f"cvm {C.flist(pits)}", "cvm", float(stat), case)
         elif typ == "AD":
             add(f"ad {C.flist(pits)}", "ad", ("ok", float(stat), float(pv)), case)
+        if typ in ("CV", "AD"):
+            # the model's own alpha: jitter re-drawn from the seed, pit(random=True) with pit's default cst, then the test
+            np.random.seed(seed)
+            dobs = np.random.uniform(-EPS_PIT, EPS_PIT, size=n)
+            dens = np.random.uniform(-EPS_PIT, EPS_PIT, size=(n, m))
+            add(f"alpha {typ} {C.flist(obs)} {C.flist(dobs)} {rowstr(ens)} {rowstr(dens)}", "alpha", (float(stat), float(pv)), case)
         ctx.count(("alpha", obs.tobytes(), ens.tobytes(), typ, seed), True, f"alpha/{typ}")
+
+    # ---------------- glue: __check_ensemble_data in front of pit / alpha (NaN rows, first-dimension check)
+    for it in range(ctx.scale(120, 1200)):
+        n = rng.choice([1, 2, 3, 6])
+        m = rng.choice([1, 2, 4])
+        ens = np.array([[float(rng.randint(0, 5)) for _ in range(m)] for _ in range(n)])
+        obs = np.array([float(rng.randint(-1, 6)) for _ in range(n)])
+        kind = rng.choice(["complete", "nan_obs", "nan_rows", "nan_both", "all_invalid", "length"])
+        if kind in ("nan_obs", "nan_both"):
+            for i in rng.sample(range(n), rng.randint(1, n)):
+                obs[i] = np.nan
+        if kind in ("nan_rows", "nan_both"):
+            for i in rng.sample(range(n), rng.randint(1, n)):
+                ens[i, :] = np.nan
+        if kind == "all_invalid":
+            for i in range(n):
+                if rng.random() < 0.5:
+                    obs[i] = np.nan
+                else:
+                    ens[i, :] = np.nan
+        if kind == "length":
+            obs = np.append(obs, [1.0] * rng.randint(1, 2)) if rng.random() < 0.5 or n == 1 else obs[:-1]
+        case = {"obs": [repr(v) for v in obs], "ens": [[repr(v) for v in r] for r in ens], "gen": "glue/" + kind}
+        try:
+            pits, sudo = metrics.pit(obs, ens)
+            kept = [i for i in range(n) if obs[i] == obs[i] and not np.all(np.isnan(ens[i]))]
+            impl = "ok " + C.flist(obs[kept]) + f" {len(pits)}"
+            if len(pits) != len(sudo):
+                ctx.finding("pit/shapes", "pit returns PIT values and flags of different lengths", case)
+            # in the property's quantifier (no NaN) nothing may be dropped
+            if kind == "complete" and len(pits) != n:
+                ctx.finding("pit/drops_complete_forecasts", "pit drops forecasts that hold no NaN", {**case, "returned": len(pits)})
+            for pos, i in enumerate(kept[:len(pits)]):
+                add(f"pitk {C.f2h(obs[i])} {C.flist(ens[i])}", "pit", float(pits[pos]), {**case, "i": i})
+        except ValueError as e:
+            msg = str(e)
+            impl = "err " + ("lengthMismatch" if "first dim" in msg else "noValidData" if "No valid data" in msg else "other")
+            if kind == "complete":
+                ctx.finding("pit/rejects_complete_forecasts", "pit rejects complete finite forecasts", {**case, "error": msg[:100]})
+        add(f"checkens {C.flist(obs)} {rowstr(ens)}", "checkens", impl, case)
+        ctx.count(("glue", obs.tobytes(), ens.tobytes()), impl.startswith("ok"), "glue/" + kind + "/" + impl.split(" ")[0 if impl.startswith("ok") else 1])
+
+    # ---------------- histories: the same arrays / buffers used over several calls, edited in place in between;
+    # every answer is judged on the state at the time of the call
+    import copy
+    import pickle
+
+    def new_levels(shape, levels):
+        return np.array([rng.choice(levels) for _ in range(int(np.prod(shape)))], dtype=float).reshape(shape)
+
+    for it in range(ctx.scale(120, 1200)):
+        # --- dscore / ensrank
+        n, m = rng.choice([2, 3, 5, 8]), rng.choice([1, 2, 3, 6])
+        levels = [float(v) for v in range(rng.choice([3, 6, 30]))]
+        sim = new_levels((n, m), levels)
+        obs_arr = np.array(rng.sample(range(50), n), dtype=float)
+        fbuf, rbuf = np.zeros((n, n)), np.zeros(n)
+        eps = 1e-6
+        trail = []
+        for step in range(rng.randint(2, 4)):
+            act = rng.choice(["same", "edit_sim", "edit_obs", "rewrite_sim", "other_eps", "copy", "scribble_outputs"]) if step else "first"
+            if act == "edit_sim":
+                for _ in range(rng.randint(1, 3)):
+                    sim[rng.randrange(n), rng.randrange(m)] = rng.choice(levels)
+            elif act == "edit_obs":
+                i, k = rng.randrange(n), rng.randrange(n)
+                obs_arr[i], obs_arr[k] = obs_arr[k], obs_arr[i]
+                obs_arr[rng.randrange(n)] += 100.0
+            elif act == "rewrite_sim":
+                sim[:, :] = new_levels((n, m), levels)          # same shape, every value replaced
+            elif act == "other_eps":
+                eps = rng.choice([1e-7, 1e-4, 1e-6])
+            elif act == "copy":
+                sim = rng.choice([copy.deepcopy, lambda a: pickle.loads(pickle.dumps(a)), np.copy])(sim)
+            elif act == "scribble_outputs":
+                fbuf[:, :] = 7.0
+                rbuf[:] = -3.0
+            trail.append(act)
+            if len(set(obs_arr.tolist())) < n:
+                obs_arr += np.arange(n) * 1e-3
+            dscore_case({"obs": obs_arr.tolist(), "obs_array": obs_arr, "sim": sim, "eps": eps, "gen": "fixed/history",
+                         "history": list(trail)}, exhaustive=True)
+            # the kernel on output buffers that still hold the previous answer
+            ierr = c_hydrodiy_stat.ensrank(eps, sim, fbuf, rbuf)
+            W = wm_pairs(sim)
+            iu = np.triu_indices(n, 1)
+            if ierr != 0 or not np.all(np.abs(fbuf[iu] - (W / (m * m))[iu]) <= 1e-13) or not np.array_equal(rbuf, wm_ranks(W, m)):
+                ctx.finding("ensrank/history/reused_buffers", "c_ensrank on output buffers holding an earlier answer differs from Weigel-Mason",
+                            {"sim": sim.tolist(), "eps": eps, "history": list(trail), "ranks": rbuf.tolist()})
+            ctx.hist["history/dscore/" + act] = ctx.hist.get("history/dscore/" + act, 0) + 1
+
+        # --- pit
+        n, m = rng.choice([1, 3, 6]), rng.choice([1, 3, 5])
+        off, step_ = rng.choice([(0.0, 1.0), (0.0, 0.1), (1e6, 1e-6)])
+        lev = lambda K: off + K * step_
+        ens = np.array([[lev(rng.randint(0, 6)) for _ in range(m)] for _ in range(n)])
+        obs = np.array([lev(rng.randint(-1, 7)) for _ in range(n)])
+        cst, censor, random_ = 0.3, lev(1), True
+        trail, last = [], None
+        for step in range(rng.randint(2, 4)):
+            act = rng.choice(["same", "edit_ens", "edit_obs", "rewrite_ens", "other_options", "copy", "scribble_outputs"]) if step else "first"
+            if act == "edit_ens":
+                ens[rng.randrange(n), rng.randrange(m)] = lev(rng.randint(0, 6))
+            elif act == "edit_obs":
+                obs[rng.randrange(n)] = lev(rng.randint(-1, 7))
+            elif act == "rewrite_ens":
+                ens[:, :] = np.array([[lev(rng.randint(0, 6)) for _ in range(m)] for _ in range(n)])
+            elif act == "other_options":
+                cst, censor, random_ = rng.choice([0.0, 0.3, 0.5, 0.1]), lev(rng.randint(-1, 4)), rng.random() < 0.5
+            elif act == "copy":
+                ens, obs = copy.deepcopy(ens), pickle.loads(pickle.dumps(obs))
+            elif act == "scribble_outputs" and last is not None:
+                try:
+                    last[0][...] = -1.0
+                    last[1][...] = True
+                except (TypeError, ValueError):
+                    pass
+            trail.append(act)
+            last = pit_case(obs, ens, cst, censor, random_, rng.randrange(2 ** 31), "history", history=list(trail))
+            ctx.hist["history/pit/" + act] = ctx.hist.get("history/pit/" + act, 0) + 1
+
+        # --- uniformity statistics and alpha on one array
+        n = rng.choice([2, 3, 7, 40])
+        xa = np.array([rng.uniform(1e-6, 1 - 1e-6) for _ in range(n)])
+        trail = []
+        for step in range(rng.randint(2, 4)):
+            act = rng.choice(["same", "edit_value", "reverse_in_place", "sort_in_place", "rewrite", "copy"]) if step else "first"
+            if act == "edit_value":
+                xa[rng.randrange(n)] = rng.uniform(1e-6, 1 - 1e-6)
+            elif act == "reverse_in_place":
+                xa[:] = xa[::-1].copy()
+            elif act == "sort_in_place":
+                xa.sort()
+            elif act == "rewrite":
+                xa[:] = [rng.uniform(1e-6, 1 - 1e-6) for _ in range(n)]
+            elif act == "copy":
+                xa = pickle.loads(pickle.dumps(xa))
+            trail.append(act)
+            before = xa.copy()
+            unif_case(xa.tolist(), "history", 1, xa=xa, history=list(trail))
+            if not np.array_equal(before, xa):
+                # the statistics are order free, so this is not a violation of the property; later steps use the array as it is
+                ctx.hist["history/uniform/input_changed_by_call"] = ctx.hist.get("history/uniform/input_changed_by_call", 0) + 1
+            ctx.hist["history/uniform/" + act] = ctx.hist.get("history/uniform/" + act, 0) + 1
 
     # ---------------- correspondence
     replies = lean.ask(reqs)
@@ -834,6 +1014,12 @@ def body(ctx):
             ok = rep == impl
         elif kind == "cvm":
             ok = C.close(C.h2f(rep), impl, rel=1e-12, abs_=1e-16)
+        elif kind == "alpha":
+            toks = rep.replace("ok ", "").replace("some ", "").split(" ")
+            ok = len(toks) == 2 and toks[0] != "err" and C.close(C.h2f(toks[0]), impl[0], rel=1e-12, abs_=1e-12) \
+                and C.close(C.h2f(toks[1]), impl[1], rel=1e-9, abs_=1e-10)
+        elif kind == "checkens":
+            ok = rep == impl
         elif kind == "cvmp":
             ok = rep.startswith("some ") and C.close(C.h2f(rep.split(" ")[1]), impl, rel=1e-12, abs_=1e-15)
         elif kind == "cvmq":
